@@ -324,6 +324,39 @@ func runC10(c *Ctx) {
 		}
 		c.Pred("verify", "sign-then-verify", fmt.Sprintf("alg=%d %s", alg, in), rs.Verify(key, set) == nil, fmt.Sprint(rs.Verify(key, set)), "nil", true)
 		c.Pred("verify", "verify-invariant", fmt.Sprintf("alg=%d %s", alg, in), rs.Verify(key, perm2) == nil, fmt.Sprint(rs.Verify(key, perm2)), "nil", len(set) > 1)
+		// the same RRSIG value signs further RRsets whose owners have other label counts (one label more, then the
+		// original again): Sign sets the fields it computes afresh each time, every output verifies
+		if len(wireOf(owner)) < 240 && i%3 == 0 {
+			deeper := make([]dns.RR, len(set))
+			for j, rr := range set {
+				d := dns.Copy(rr)
+				d.Header().Name = "deep." + d.Header().Name
+				deeper[j] = d
+			}
+			detail := ""
+			okAll := true
+			for round, ss := range [][]dns.RR{deeper, set, deeper} {
+				if err := rs.Sign(k.signer, ss); err != nil {
+					okAll, detail = false, fmt.Sprintf("round %d sign: %v", round, err)
+					break
+				}
+				wantLab := len(owner) + 1 - round%2
+				if string(owner[0]) == "*" && round%2 == 1 {
+					wantLab--
+				}
+				if owner[0][0] == '*' && len(owner[0]) > 1 && round%2 == 1 {
+					wantLab = int(rs.Labels) // observation O6: not fixed by the property
+				}
+				if err := rs.Verify(key, ss); err != nil || int(rs.Labels) != wantLab {
+					okAll, detail = false, fmt.Sprintf("round %d: verify=%v labels=%d want %d", round, err, rs.Labels, wantLab)
+					break
+				}
+			}
+			c.Pred("verify", "rrsig-value-reused", fmt.Sprintf("alg=%d %s", alg, in), okAll, detail, "every round verifies with the label count of its owner", true)
+			if err := rs.Sign(k.signer, set); err != nil {
+				continue
+			}
+		}
 		if string(owner[0]) == "*" {
 			// wildcard expansion consistent with Labels
 			exp := append([][]byte{[]byte("x"), []byte("Y")}, owner[1:]...)
